@@ -285,6 +285,22 @@ func (c *Ctx) flagRegs() []*flagReg {
 								continue
 							}
 							ri := &flagReg{Name: name, Call: call, ValueType: r.ValueType, ValueArg: r.ValueArg, Fields: map[string]string{}}
+							if rv, ok := c.rowValue(r.ValueArg, tbl, i); ok {
+								// the value itself comes from the table row
+								ri.ValueArg = rv
+								vv := rv
+								if mi, ok := vv.(*ssa.MakeInterface); ok {
+									vv = mi.X
+								}
+								if n := namedOf(vv.Type()); n != nil {
+									ri.ValueType = typeName(n)
+								}
+							}
+							if (m == "VarP" || m == "VarPF" || strings.HasSuffix(m, "VarP")) && len(args) > 3 {
+								if sh, ok := c.evalWithRow(args[3], tbl, i); ok {
+									ri.Short = sh
+								}
+							}
 							for k, val := range r.Fields {
 								ri.Fields[k] = val
 							}
@@ -422,6 +438,26 @@ func (c *Ctx) evalWithRow(v ssa.Value, t *constTable, i int) (string, bool) {
 		}
 	}
 	return "", false
+}
+
+// rowValue: the value stored in row i for the table field v reads.
+func (c *Ctx) rowValue(v ssa.Value, t *constTable, i int) (ssa.Value, bool) {
+	fieldIdx := -1
+	switch x := v.(type) {
+	case *ssa.Field:
+		if c.dependsOnTable(x.X, t) {
+			fieldIdx = x.Field
+		}
+	case *ssa.UnOp:
+		if fa, ok := x.X.(*ssa.FieldAddr); ok && c.dependsOnTable(fa.X, t) {
+			fieldIdx = fa.Field
+		}
+	}
+	if fieldIdx < 0 {
+		return nil, false
+	}
+	val, ok := t.rows[int64(i)][fieldIdx]
+	return val, ok
 }
 
 func (c *Ctx) evalWithRowRendered(v ssa.Value, t *constTable, i int) (string, bool) {
